@@ -568,7 +568,7 @@ func checkC01(c *run.Ctx) {
 	all, err := keys.All()
 	must(c, err)
 	c01Witnesses(c, all)
-	n := c.N(1200, 20000)
+	n := c.N(1200, 100000)
 	c.Parallel("step", n, func(i int, r *rand.Rand) {
 		kind := []string{"EdDSA", "EdDSA", "EdDSA", "EdDSA", "ES512", "PS512", "ES256-signer", "EdDSA"}[i%8]
 		kp, other := all[kind][0], all[kind][1]
